@@ -81,7 +81,7 @@ Theorem C05_monitor_sound :
 Proof. exact monitor_sound. Qed.
 Print Assumptions C05_monitor_sound.
 
-(* ---- NOT proved (no admitted statement anywhere): the protected CCCD bits of the whole connection are unchanged
+(* ---- NOT proved, stated only: the protected CCCD bits of the whole connection are unchanged
    by a request on an unencrypted link. Per attribute this is C05_protected_write_refused (a write through the
    protected CCCD attribute changes nothing); the statement below additionally needs that a write to ANOTHER
    characteristic's CCCD leaves these two bits alone, i.e. that cccd_position is injective on the declared CCCDs
@@ -97,7 +97,7 @@ Definition C05_protected_cccd_unchanged_full : Prop :=
 (* cfg_v_wq10: characteristic 3 (handle 11, one byte) requires encryption, characteristic 0 (handle 3) does not *)
 Example C05_hypotheses_nonvacuous :
   wf cfg_v_wq10 /\ prot cfg_v_wq10 3 = true /\ prot cfg_v_wq10 0 = false
-  /\ wf cfg_v_enc_server_none /\ map (prot cfg_v_enc_server_none) (seq 0 13) = [false; false; false; true; true; false; false; true; false; true; true; false; true].
+  /\ wf cfg_v_enc_server_none /\ map (prot cfg_v_enc_server_none) (seq 0 13) = [false; false; false; true; true; false; false; true; true; true; true; false; true].
 Proof. repeat split; vm_compute; reflexivity. Qed.
 
 (* two stores that differ in the protected byte (0x94 / 0x2A) *)
@@ -108,8 +108,7 @@ Example C05_low_equivalent_stores :
   low_eq cfg_v_wq10 (set_vals (srv_init cfg_v_wq10) store_a) (set_vals (srv_init cfg_v_wq10) store_b).
 Proof.
   repeat split. intros g P. destruct g as [|[|[|[|g]]]]; try reflexivity.
-  - vm_compute in P. discriminate P.
-  - destruct g; reflexivity.
+  vm_compute in P. discriminate P.
 Qed.
 
 (* the unencrypted client tries every path (Read, Read Blob, Read By Type, Read Multiple, Write, Write Command,
@@ -148,10 +147,10 @@ Example C05_monitor_rejects_leak_by_read_multiple :
   monitor cfg_v_wq10 [(OpIn O [14; 3; 0; 11; 0] 23, OBytes [15; 1; 12; 23; 34; 34])] = Some (0%nat, t_leak_read).
 Proof. vm_compute. reflexivity. Qed.
 
-(* cfg_v_enc_server_none: handle 11 = value of 2a03 (indicate, requires encryption) *)
+(* cfg_v_enc_server_none: handle 10 = value of 2a03 (indicate, requires encryption) *)
 Example C05_monitor_rejects_leak_by_indication :
-  monitor cfg_v_enc_server_none [(OpOut O 23, OBytes [29; 11; 0; 1; 2])] = Some (0%nat, t_leak_notify)
-  /\ monitor cfg_v_enc_server_none [(OpSec O true 1, ONone); (OpOut O 23, OBytes [29; 11; 0; 1; 2])] = None.
+  monitor cfg_v_enc_server_none [(OpOut O 23, OBytes [29; 10; 0; 1; 2])] = Some (0%nat, t_leak_notify)
+  /\ monitor cfg_v_enc_server_none [(OpSec O true 1, ONone); (OpOut O 23, OBytes [29; 10; 0; 1; 2])] = None.
 Proof. split; vm_compute; reflexivity. Qed.
 
 Example C05_monitor_rejects_accepted_write :
